@@ -373,8 +373,6 @@ class Families(Stubs):
               attrs=None, act=None):
         x = self.tens(list(shape), dtype, qi)
         y = self.tens(list(oshape if oshape is not None else shape), odtype or dtype, qo)
-        if kind == "LeakyRelu" and attrs is None:
-            attrs = {"alpha": 0.1}      # what the reader always supplies; constraint_alpha_valid (C16-20) reads it
         return self.op(kind, [x], [y], attrs or {}, act)
 
     def mean(self, shape=(1, 8, 8, 4), axes=(1, 2), keep=True, dtype="int8", axis_scalar=False, oshape=None):
@@ -685,14 +683,6 @@ def stub_cases(rng, thorough=False):
         add("softmax", f"beta={beta}", F.unary, "Softmax", attrs={"beta": beta})
     add("softmax", "batch 4 (excepted)", F.unary, "Softmax", shape=(4, 10))
     add("leakyrelu", "alpha", F.unary, "LeakyRelu", attrs={"alpha": 0.1})
-    # constraint_alpha_valid (repair C16-20): "Alpha only allowed to be negative if IFM is int8 or uint8" - both sides of the rule
-    # for every IFM type, the float edge cases of `alpha >= 0` (-0.0, NaN, tiny negative), an integer attribute, a missing one
-    for dt in ("int8", "uint8", "int16", "int32"):
-        for alpha in (-0.5, -0.0, 0.0, 0.5, -2.0, 1.5, float("nan"), -1e-30, float("-inf"), float("inf"), np.float32(-0.5), -1, 0):
-            add("leakyrelu", f"alpha={alpha!r} {dt}", F.unary, "LeakyRelu", dtype=dt, attrs={"alpha": alpha})
-        add("leakyrelu", f"no alpha attribute {dt}", F.unary, "LeakyRelu", dtype=dt, attrs={"negative_slope": 0.1})
-    add("leakyrelu", "alpha=-0.5 int16 -> int8", F.unary, "LeakyRelu", dtype="int16", odtype="int8", attrs={"alpha": -0.5})
-    add("leakyrelu", "alpha=-0.5 int8 -> int16", F.unary, "LeakyRelu", dtype="int8", odtype="int16", attrs={"alpha": -0.5})
     # ---- mean -----------------------------------------------------------------------------------------------
     for shape, axes in (((1, 8, 8, 4), (1, 2)), ((1, 8, 8, 4), (2, 1)), ((1, 8, 8, 4), (1,)), ((1, 8, 8, 4), (2,)), ((1, 8, 8, 4), (3,)),
                         ((1, 1, 8, 4), (3,)), ((1, 8, 8, 1), (3,)), ((1, 8, 8, 4), (0,)), ((2, 8, 8, 4), (0,)), ((2, 8, 8, 4), (1, 2)),
@@ -885,9 +875,7 @@ def stub_cases(rng, thorough=False):
             kind = ch(["Relu", "Sigmoid", "Tanh", "LeakyRelu", "HardSwish", "Softmax", "Quantize", "Abs"])
             dt = ch(["int8", "uint8", "int16", "int32"])
             add("rand_unary", f"#{i}", F.unary, kind, shape=tuple(ch([1, 2, 4, 8]) for _ in range(ch([1, 2, 3, 4, 4, 5]))), dtype=dt, odtype=ch([dt, dt, "int8"]),
-                qi=ch([F.qp(0.5, 0), F.qp(0.5, 0), None]), qo=ch([F.qp(0.5, 0), F.qp(0.5, 0), None, F.qp(1e-40, 0)]),
-                # (a function of the index, so that the random stream of the other families is what it was)
-                attrs={"alpha": (0.1, -0.5, 0.0, 0.5, -2.0)[i % 5]} if kind == "LeakyRelu" else None)
+                qi=ch([F.qp(0.5, 0), F.qp(0.5, 0), None]), qo=ch([F.qp(0.5, 0), F.qp(0.5, 0), None, F.qp(1e-40, 0)]))
     return out
 
 
